@@ -82,6 +82,7 @@ def run(ctx) -> None:
     regs = all_registrations(ctx)
     check_inert(ctx, regs)
     check_inverse(ctx, regs)
+    check_incoming_links(ctx, regs)
     check_total(ctx)
     check_cover(ctx)
     ctx.rule("C03.exact", "T2: an undo entry undoes exactly what the operation did (idempotent adds, late-bound receivers, atomic objective replacement)", floor=20)
@@ -126,6 +127,25 @@ def check_exact(ctx, regs: List[Registration]) -> None:
                     ctx.ok("C03.exact", r.fn, enclosing_stmt(r.node), "closure in a loop does not read loop variables")
         if r.target is None:
             continue
+        # ---- same iteration space: an entry registered per element of a collection undoes a change made per element
+        # of *that* collection - registered over a larger one it resets objects the operation never touched
+        if isinstance(r.target, ast.Name) and r.target.id == "setattr" and len(r.args) >= 2 and isinstance(r.args[0], ast.Name) and isinstance(r.args[1], ast.Constant):
+            rlp = _enclosing_for(r.node, r.fn)
+            if rlp is not None and isinstance(rlp.target, ast.Name) and rlp.target.id == r.args[0].id:
+                attr = str(r.args[1].value)
+                spaces = []
+                for n_ in walk_local(r.fn.node):
+                    if isinstance(n_, ast.Assign) and len(n_.targets) == 1 and isinstance(n_.targets[0], ast.Attribute) and n_.targets[0].attr in (attr, "_" + attr.lstrip("_")) and isinstance(n_.targets[0].value, ast.Name):
+                        mlp = _enclosing_for(n_, r.fn)
+                        if mlp is not None and isinstance(mlp.target, ast.Name) and mlp.target.id == n_.targets[0].value.id:
+                            spaces.append(mlp)
+                if spaces:
+                    rtxt = norm(ctx.inf.expand_alias(r.fn, rlp.iter))
+                    same = [m_ for m_ in spaces if norm(ctx.inf.expand_alias(r.fn, m_.iter)) == rtxt or (isinstance(rlp.iter, ast.Name) and isinstance(m_.iter, ast.Name) and rlp.iter.id == m_.iter.id)]
+                    if same:
+                        ctx.ok("C03.exact", r.fn, enclosing_stmt(r.node), f"registered for every element of `{norm(rlp.iter, 40)}`, the collection whose elements the operation changes")
+                    else:
+                        ctx.bad("C03.exact", r.fn, enclosing_stmt(r.node), f"the undo entries are registered for the elements of `{norm(rlp.iter, 40)}`, the operation sets `{attr}` on the elements of `{norm(spaces[0].iter, 40)}`: objects the operation never touched (e.g. already part of the model) are reset when the context exits")
         key = (r.fn.qualname.replace("cobra.", "", 1), norm(enclosing_stmt(r.node)))
         ttxt = norm(r.target)
         # ---- latebound
@@ -231,6 +251,27 @@ def check_resettable(ctx) -> None:
         ctx.ok("C03.inverse", fn, enclosing_stmt(r), "the entry calls the raw setter `func` on the same object with the value read before the change; it records nothing itself", nontrivial=False)
     else:
         ctx.bad("C03.inverse", fn, enclosing_stmt(r), "the registered entry does not call the raw setter `func` on the same object with the old value")
+
+
+def check_incoming_links(ctx, regs: List[Registration]) -> None:
+    """An incoming object (element of the collection an operation inserts into the model) may already hold the model's
+    genes: a reaction that was removed from this model keeps its gene set while the genes no longer list it (frozen
+    exception of C02.backref). update_genes_from_gpr registers the undo of an association only for genes that are new
+    to the reaction's *own* set, so for such a reaction the links `gene._reaction.add(reaction)` it creates are not
+    undone by it: the inserting operation has to register their removal itself."""
+    for fn in sorted(ctx.prog.all_funcs(), key=lambda f: f.qualname):
+        calls = [n for n in walk_local(fn.node) if isinstance(n, ast.Call) and isinstance(n.func, ast.Attribute) and n.func.attr == "update_genes_from_gpr" and isinstance(n.func.value, ast.Name) and incoming_element(ctx, fn, n.func.value.id)]
+        if not calls or not ctx.eff.context_aware(fn):
+            continue
+        for c in calls:
+            elem = c.func.value.id
+            own = [r for r in regs if r.fn is fn and r.target is not None and isinstance(r.target, ast.Attribute) and r.target.attr in ("remove", "discard") and norm(r.target.value).endswith("._reaction") and r.args and norm(r.args[0]) == elem]
+            # entries for the *metabolite* links are a different loop: the gene entry iterates genes of the element
+            gene_entries = [r for r in own if any(isinstance(a, ast.For) and ("gene" in norm(a.iter).lower() or "gene" in norm(a.target).lower()) for a in ancestors(r.node))]
+            if gene_entries:
+                ctx.ok("C03.inverse", fn, enclosing_stmt(gene_entries[0].node), f"the gene links of an incoming `{elem}` that already holds the model's genes are removed again on exit")
+            else:
+                ctx.bad("C03.inverse", fn, enclosing_stmt(c), f"`{elem}.update_genes_from_gpr()` on an incoming reaction: a reaction that was removed from this model before still holds the model's genes (which no longer list it); the association made here is then not undone by update_genes_from_gpr (it registers the undo only for genes new to the reaction's own set) and no entry of this operation removes `{elem}` from `gene._reaction` - after `with model: model.add_reactions([removed_reaction])` the genes list a reaction that is not in the model")
 
 
 def check_objective_atomic(ctx) -> None:
